@@ -127,3 +127,38 @@ func Verif_C12_Pairs(cfg int) {
 	verifAssert("C12/no-invalid-driver-call", len(w.dev.vu) == 0)
 	verifReach("end")
 }
+
+// Verif_C11_Race: the schedule clause of C11 - two goroutines race for the last bytes of a heap size limit
+// (heap 0 limited to 512 bytes, two dedicated requests of symbolic sizes that do not both fit).
+func Verif_C11_Race(cfg int) {
+	w := newWorld(11, 4) // heap size limits {512, 1024}
+	s1 := verifNondetInt("size1")
+	s2 := verifNondetInt("size2")
+	verifAssume(s1 >= 1)
+	verifAssume(s1 <= 400)
+	verifAssume(s2 >= 1)
+	verifAssume(s2 <= 400)
+	var a1, a2 Allocation
+	var e1, e2 error
+	alloc := func(size int, out *Allocation) error {
+		reqs := core1_0.MemoryRequirements{Size: size, Alignment: 1, MemoryTypeBits: 0x1}
+		_, err := w.al.AllocateMemory(&reqs, AllocationCreateInfo{Flags: AllocationCreateDedicatedMemory}, out)
+		return err
+	}
+	verifGo(func() { e1 = alloc(s1, &a1) })
+	verifGo(func() { e2 = alloc(s2, &a2) })
+	verifJoin()
+	if e1 == nil {
+		w.live = append(w.live, &vAlloc{a: &a1, reqSize: s1, reqAlign: 1, typeBits: 0x1, dedicated: true})
+	}
+	if e2 == nil {
+		w.live = append(w.live, &vAlloc{a: &a2, reqSize: s2, reqAlign: 1, typeBits: 0x1, dedicated: true})
+	}
+	w.oracleC11("C11/race/limits-respected-after-racing-allocations")
+	// a request is only refused when it really does not fit next to what was granted
+	if e1 != nil && e2 != nil {
+		verifAssert("C11/race/not-both-refused-when-each-fits-alone", verifAnd(s1 > 512, s2 > 512))
+	}
+	w.oracleC04("C11/race/totals-after-racing-allocations")
+	verifReach("end")
+}
